@@ -8,18 +8,19 @@
 
    Events: reset{n, conns[{calls[{k,a,f}], faulty}], fair}, connect{c}, accept{c}, inject{c,avail},
    handle{c,i,oneway,more}, wrote{w, frames[{t,c,i,j,cont}], tail}, stream_item, stream_end{c,i},
-   tick, fault{c}, write_err{c}, dropped{c}, exit, quiesce. *)
+   tick, fault{c}, write_err{c}, wrote_partial{w, frames, tail}, dropped{c}, exit, quiesce. *)
 EXTENDS Naturals, Sequences, FiniteSets, Json, IOUtils, TLC
 
 Rec == ndJsonDeserialize(IOEnv.TRACE)
 
 VARIABLES l, n, script, faulty, fair,
+          wonly,    \* the connection's only fault is a failing transport write: what reaches its client is judged
           status,   \* "new" | "queued" | "open" | "streaming" | "gone"
           avail,    \* complete call frames made available so far
           handled,  \* calls that reached the service
           outn,     \* owed replies written so far
           wait, wtot, wtr   \* fairness counters (C18), see FairUpdate
-tvars == <<l, n, script, faulty, fair, status, avail, handled, outn, wait, wtot, wtr>>
+tvars == <<l, n, script, faulty, fair, wonly, status, avail, handled, outn, wait, wtot, wtr>>
 
 Conns == 0..(n - 1)
 IsEv(e) == l <= Len(Rec) /\ Rec[l].ev = e /\ l' = l + 1
@@ -62,7 +63,7 @@ FairOK == fair => /\ \A x \in Conns : \A d \in Conns : wait'[x][d] <= 1
 NoFair == UNCHANGED <<wait, wtot, wtr>>
 
 \* ---- actions -----------------------------------------------------------------------------
-TInit == /\ l = 1 /\ n = 0 /\ script = <<>> /\ faulty = <<>> /\ fair = FALSE
+TInit == /\ l = 1 /\ n = 0 /\ script = <<>> /\ faulty = <<>> /\ fair = FALSE /\ wonly = <<>>
          /\ status = <<>> /\ avail = <<>> /\ handled = <<>> /\ outn = <<>>
          /\ wait = <<>> /\ wtot = <<>> /\ wtr = <<>>
 
@@ -71,6 +72,7 @@ TReset == /\ IsEv("reset")
              /\ n' = m /\ fair' = Rec[l].fair
              /\ script' = [c \in 0..(m - 1) |-> Rec[l].conns[c + 1].calls]
              /\ faulty' = [c \in 0..(m - 1) |-> Rec[l].conns[c + 1].faulty]
+             /\ wonly' = [c \in 0..(m - 1) |-> Rec[l].conns[c + 1].wonly]
              /\ status' = [c \in 0..(m - 1) |-> "new"]
              /\ avail' = [c \in 0..(m - 1) |-> 0] /\ handled' = [c \in 0..(m - 1) |-> 0]
              /\ outn' = [c \in 0..(m - 1) |-> 0]
@@ -79,27 +81,27 @@ TReset == /\ IsEv("reset")
 
 TConnect == /\ IsEv("connect") /\ LET c == Rec[l].c IN
                status[c] = "new" /\ status' = [status EXCEPT ![c] = "queued"]
-            /\ NoFair /\ UNCHANGED <<n, script, faulty, fair, avail, handled, outn>>
+            /\ NoFair /\ UNCHANGED <<n, script, faulty, fair, wonly, avail, handled, outn>>
 TAccept == /\ IsEv("accept") /\ LET c == Rec[l].c IN
               /\ status[c] = "queued" /\ status' = [status EXCEPT ![c] = "open"]
            /\ FairUpdate(FALSE, 0, TRUE) /\ FairOK
-           /\ UNCHANGED <<n, script, faulty, fair, avail, handled, outn>>
+           /\ UNCHANGED <<n, script, faulty, fair, wonly, avail, handled, outn>>
 TInject == /\ IsEv("inject") /\ avail' = [avail EXCEPT ![Rec[l].c] = Rec[l].avail]
-           /\ NoFair /\ UNCHANGED <<n, script, faulty, fair, status, handled, outn>>
+           /\ NoFair /\ UNCHANGED <<n, script, faulty, fair, wonly, status, handled, outn>>
 
 \* A call reaches the service: the next one of its connection, fully received, after everything
 \* owed to the earlier calls of that connection was written - exactly once, in order (C08).
 THandle == /\ IsEv("handle")
            /\ LET c == Rec[l].c  i == Rec[l].i IN
-              /\ c \in Conns /\ status[c] = "open"
+              /\ c \in Conns /\ status[c] \in {"open", "torn"}   \* (torn: the call may still reach the service, nothing can be written)
               /\ i = handled[c] + 1 /\ i <= Len(script[c]) /\ avail[c] >= i
               /\ Decodable(script[c][i])
               /\ Rec[l].oneway = (script[c][i].k \in {"oneway", "onewayerr"})
               /\ (~faulty[c] => outn[c] = OwedBefore(c, i))
               /\ handled' = [handled EXCEPT ![c] = i]
-              /\ status' = [status EXCEPT ![c] = IF script[c][i].k = "stream" THEN "streaming" ELSE "open"]
+              /\ status' = [status EXCEPT ![c] = IF @ = "torn" THEN @ ELSE IF script[c][i].k = "stream" THEN "streaming" ELSE "open"]
               /\ FairUpdate(TRUE, c, script[c][i].k = "stream") /\ FairOK
-           /\ UNCHANGED <<n, script, faulty, fair, avail, outn>>
+           /\ UNCHANGED <<n, script, faulty, fair, wonly, avail, outn>>
 
 \* Something is written on connection w: only what w itself is owed next, in order, after the
 \* call it answers reached the service (C08: own connection, exactly once; C10: items in order
@@ -109,7 +111,7 @@ RECURSIVE FramesMatch(_, _, _)
 FramesMatch(w, fs, k) ==
     IF fs = <<>> THEN TRUE
     ELSE /\ Head(fs).c = w
-         /\ (faulty[w] \/ ( /\ k + 1 <= Len(Owed(w))
+         /\ ((faulty[w] /\ ~wonly[w]) \/ ( /\ k + 1 <= Len(Owed(w))
                             /\ Head(fs) = WithC(Owed(w)[k + 1], w)
                             /\ Head(fs).i <= handled[w] ))
          /\ FramesMatch(w, Tail(fs), k + 1)
@@ -119,27 +121,41 @@ TWrote == /\ IsEv("wrote")
              /\ status[w] \in {"open", "streaming"}
              /\ FramesMatch(w, fs, outn[w])
              /\ outn' = [outn EXCEPT ![w] = @ + Len(fs)]
-          /\ NoFair /\ UNCHANGED <<n, script, faulty, fair, status, avail, handled>>
+          /\ NoFair /\ UNCHANGED <<n, script, faulty, fair, wonly, status, avail, handled>>
+
+\* A transport write failed after it had handed over some of its bytes (only on connections designated
+\* for write faults).  The complete frames among them have reached the client: they are judged like any
+\* other write and count as written - a reply that got through is never written again (C08: exactly one
+\* reply).  If the write stopped inside a frame the client's stream is torn: nothing may follow on it.
+TWrotePartial ==
+          /\ IsEv("wrote_partial")
+          /\ LET w == Rec[l].w  fs == Rec[l].frames IN
+             /\ faulty[w] /\ wonly[w]
+             /\ status[w] \in {"open", "streaming"}
+             /\ FramesMatch(w, fs, outn[w])
+             /\ outn' = [outn EXCEPT ![w] = @ + Len(fs)]
+             /\ status' = [status EXCEPT ![w] = IF Rec[l].tail > 0 THEN "torn" ELSE @]
+          /\ NoFair /\ UNCHANGED <<n, script, faulty, fair, wonly, avail, handled>>
 
 \* The service's stream ended: the connection takes calls again (C10).
 TStreamEnd == /\ IsEv("stream_end")
               /\ LET c == Rec[l].c IN
-                 /\ status[c] \in {"streaming", "gone"}
+                 /\ status[c] \in {"streaming", "gone", "torn"}
                  /\ (status[c] = "streaming" /\ ~faulty[c] => outn[c] = OwedBefore(c, Rec[l].i + 1))
                  /\ status' = [status EXCEPT ![c] = IF @ = "streaming" THEN "open" ELSE @]
               /\ FairUpdate(FALSE, 0, TRUE) /\ FairOK
-              /\ UNCHANGED <<n, script, faulty, fair, avail, handled, outn>>
+              /\ UNCHANGED <<n, script, faulty, fair, wonly, avail, handled, outn>>
 TNoop == (IsEv("stream_item") \/ IsEv("tick")) /\ NoFair
-         /\ UNCHANGED <<n, script, faulty, fair, status, avail, handled, outn>>
+         /\ UNCHANGED <<n, script, faulty, fair, wonly, status, avail, handled, outn>>
 
 \* Faults are injected only on connections the scenario designates as faulty (C09) ...
 TFault == (IsEv("fault") \/ IsEv("write_err")) /\ faulty[Rec[l].c] /\ NoFair
-          /\ UNCHANGED <<n, script, faulty, fair, status, avail, handled, outn>>
+          /\ UNCHANGED <<n, script, faulty, fair, wonly, status, avail, handled, outn>>
 \* ... and only such a connection is ever closed by the server.
 TDropped == /\ IsEv("dropped") /\ faulty[Rec[l].c]
             /\ status' = [status EXCEPT ![Rec[l].c] = "gone"]
             /\ FairUpdate(FALSE, 0, TRUE) /\ FairOK
-            /\ UNCHANGED <<n, script, faulty, fair, avail, handled, outn>>
+            /\ UNCHANGED <<n, script, faulty, fair, wonly, avail, handled, outn>>
 
 \* Nothing moves any more: every healthy connection got everything it is owed, the server runs.
 TQuiesce == /\ IsEv("quiesce") /\ ~Rec[l].exited
@@ -147,10 +163,10 @@ TQuiesce == /\ IsEv("quiesce") /\ ~Rec[l].exited
                   /\ status[c] = "open"
                   /\ handled[c] = ServedCalls(script[c], 1)
                   /\ outn[c] = Len(Owed(c))
-            /\ NoFair /\ UNCHANGED <<n, script, faulty, fair, status, avail, handled, outn>>
+            /\ NoFair /\ UNCHANGED <<n, script, faulty, fair, wonly, status, avail, handled, outn>>
 \* (an `exit' event - the server future returned or panicked - is never explained)
 
-TNext == TReset \/ TConnect \/ TAccept \/ TInject \/ THandle \/ TWrote \/ TStreamEnd \/ TNoop
+TNext == TReset \/ TConnect \/ TAccept \/ TInject \/ THandle \/ TWrote \/ TWrotePartial \/ TStreamEnd \/ TNoop
          \/ TFault \/ TDropped \/ TQuiesce
 TSpec == TInit /\ [][TNext]_tvars
 Accepted ==
